@@ -501,6 +501,22 @@ def check_bound_rules(ctx):
         looked_up = bool(gets) and must_pass_sem(ctx, b, some_bb, {header}, {g.bb for g in gets if g.bb in blocks})
         ctx.check(not restr and 2 in si.params and si.has_field('v1::State', 'entries') and looked_up, R + '/check_bound/all-entries', 'T-LOOPMUST', b.name,
                   'loop does not look every state entry up in the bounds %s' % (restr or '(an entry can come round the loop without the lookup)'), b.site(nextc.bb))
+    # ---- the only refusal of its own is a submitted value outside its bound: every Err-exit that is not a propagated failure (of
+    # get_bounds / of the conversions of the table built in place) lies behind one of the contains-tests on a state value above.
+    # A refusal decided from the instance alone (e.g. a recorded substituted_value re-checked with another tolerance, seed C03-20)
+    # makes evaluate-after-partial_evaluate refuse what evaluate accepts.
+    if tests:
+        test_bbs = {c.bb for lo, c in tests}
+        own = set()
+        for bi, k, obj in b.ret_assignments():
+            if k != 'err': continue
+            if isinstance(obj, dict) and obj.get('k') == 'call' and 'from_residual' in (obj.get('r') or obj.get('f') or ''):
+                continue                                  # `?`: the failure of a callee, not a verdict of this function
+            own.add(bi)
+        ctx.counters['cfg_paths'] += 1
+        free = sorted(e for e in own if not T.must_pass(b, 0, {e}, test_bbs))
+        ctx.check(not free, R + '/check_bound/only-stated-error', 'T-ERRFLOW', b.name,
+                  'an error of its own is reachable without a Bound::contains(value, atol) test on a value of the submitted state (bb%s)' % free, b.site(free[0]) if free else b.site())
     # Bound::contains: `lower - atol <= v && v <= upper + atol`.  A small pure function: decided as a truth table on a grid of
     # points around both ends (any way of writing it: `&&`, De Morgan, `(lo..=hi).contains(&v)`, clamp, early returns);
     # the expression-shape form of the rule is only the fall-back when the body cannot be interpreted.
@@ -746,4 +762,4 @@ def check(ctx):
     if f is not None:
         check_feasibility_rule(ctx, 'C05.rule/EvaluatedConstraint::is_feasible', f, 'given')
         # atol > 0 guard is harmless; nothing else may reject
-    ctx.floor('C05.bound', 24); ctx.floor('C05.lists', 43); ctx.floor('C05.flags', 15); ctx.floor('C05.state', 15); ctx.floor('C05.rule', 6); ctx.floor('C05.cover', 5); ctx.floor('C05.objective', 2)
+    ctx.floor('C05.bound', 25); ctx.floor('C05.lists', 43); ctx.floor('C05.flags', 15); ctx.floor('C05.state', 15); ctx.floor('C05.rule', 6); ctx.floor('C05.cover', 5); ctx.floor('C05.objective', 2)
